@@ -704,6 +704,11 @@ class GenericPlainRegistry(Generic[QuantityT, UnitT], metaclass=RegistryMeta):
 
     def get_symbol(self, name_or_alias: str, case_sensitive: bool | None = None) -> str:
         """Return the preferred alias for a unit."""
+        # An exactly defined name, alias or symbol has the symbol of its definition
+        # (like get_name), also when it can be read as prefix + unit as well.
+        if name_or_alias in self._units:
+            return self._units[name_or_alias].symbol
+
         candidates = self.parse_unit_name(name_or_alias, case_sensitive)
         if not candidates:
             raise UndefinedUnitError(name_or_alias)
